@@ -29,7 +29,8 @@ ASSUMPTIONS = ["guard band: verdicts are compared only when the reference margin
                "linear mode: only agreement of the three checkers and conservativeness for non-negative schedules are required"]
 KS = [-10, -2, -0.5, -0.25, 0.25, 0.5, 0.75, 2, 10]
 PROFILE = world.profile(reconfig=0.25, constraints={"none": 1, "three": 5}, binding=(0.2, 1.2),
-                        party={"scripted": 3, "uncontrolled": 1, "greedy": 3, "rr": 1}, stations=(1, 7))
+                        party={"scripted": 3, "uncontrolled": 1, "greedy": 3, "rr": 1}, stations=(1, 7),
+                        faults={"crash": 0.3}, resume_modes=["rerun", "rerun", "json_str"])
 
 
 DY_COEF = [1, 1, 1, -1, 2, 0.5, 0.25, -0.5]
@@ -324,7 +325,7 @@ def check(sc):
 
     def setup(ctx, party):
         def post(party_, iface, rec, sched):
-            if state["n"] >= 4:
+            if state["n"] >= 4 or world.attempt_precedes_intervention(sc, rec):
                 return
             state["n"] += 1
             r = sub(sc["seed"], "probe", rec["t"], state["n"])
@@ -372,6 +373,8 @@ def check(sc):
         if cons_at(sc, p["t"]) != final_cons:
             continue          # the network object at hand is the one after the last reconfiguration
         cons = final_cons
+        if not cons:
+            break             # (every limit was withdrawn during the run)
         col = [[x] for x in p["pilots"]]
         m, _ = phasor.margins(cons, phases, col, vt, rt)
         if abs(m) < 1e-9 * max(1.0, max(l for _, l in cons)):
